@@ -162,7 +162,7 @@ def _ty_src(t):
 
 def universe_source(classes):
     tvars = sorted({p for c in classes for p in c["params"]})
-    lines = ["from typing import Any, Generic, Iterable, TypeVar",
+    lines = ["from dataclasses import dataclass", "from typing import Any, Generic, Iterable, TypeVar",
              "from func_adl import register_func_adl_os_collection",
              "from func_adl.type_based_replacement import ObjectStreamInternalMethods", ""]
     for v in tvars + ["CT"]:
@@ -175,8 +175,13 @@ def universe_source(classes):
             base = "Generic[" + ", ".join(c["params"]) + "]"
         else:
             base = ""
+        if c.get("fields"):
+            lines.append("@dataclass")
         lines.append(f"class {c['name']}" + (f"({base})" if base else "") + ":")
-        if not c["methods"]:
+        for fd in c.get("fields", []):
+            # string annotations, as a class referring to itself (or `from __future__ import annotations`) has
+            lines.append(f"    {fd['name']}: \"{_ty_src(fd['ret'])}\"")
+        if not c["methods"] and not c.get("fields"):
             lines.append("    pass")
         for m in c["methods"]:
             ann = "" if m["ret"]["k"] == "noann" else " -> " + _ty_src(m["ret"])
@@ -261,6 +266,8 @@ CB_CONTEXTS = {
         [("Select", "lambda e: {C}"), ("Select", "lambda x: x + 1")], 1, "e.jets().First()"),
     7: ("inside SelectMany's lambda at depth 1",
         [("SelectMany", "lambda e: e.jets().Select(lambda j: {C})")], 1, "j"),
+    8: ("two chained typed calls, the second on the result of the (possibly rewritten) first: e.sub(101).m(102)",
+        [("Select", "lambda e: e.sub(101).m(102)")], 1, "chain"),
 }
 
 
@@ -306,6 +313,15 @@ def cb_universe(pl, rw, log, params, owner):
     pdeco = "    @func_adl_parameterized_call(cb_param)\n" if pl == "param" else ""
     src = ""
     chain = [("Hit", None), ("Trk", ("hits", "Hit")), ("Jet", ("trks", "Trk")), ("Evt", ("jets", "Jet"))]
+    if owner == "chain":
+        # Evt.sub(tag) -> Jet and Jet.m(tag): both classes / methods carry the placement
+        src = (f"{cdeco}class Jet:\n{mdeco}    def m(self, tag: int) -> int: ...\n"
+               f"{mdeco}    def m_rw(self, tag: int) -> int: ...\n{mdeco}    def m_rw_rw(self, tag: int) -> int: ...\n\n"
+               f"{cdeco}class Evt:\n{mdeco}    def sub(self, tag: int) -> Jet: ...\n"
+               f"    def sub_rw(self, tag: int) -> Jet: ...\n    def sub_rw_rw(self, tag: int) -> Jet: ...\n\n")
+        src += "@func_adl_callable()\ndef cbfn(tag: int) -> int: ...\n"
+        exec(compile(src, "<cb universe chain>", "exec"), ns)
+        return ns
     for name, coll in chain:
         # only the class of the receiver of the call sites carries the placement: a class-level callback
         # fires for ANY method of its class, so the navigation methods must live on callback-free classes
@@ -334,7 +350,7 @@ def run_callback_case(cid, cs):
     from func_adl import EventDataset
     log, params = [], []
     desc, steps, site_stage, recv = CB_CONTEXTS[cs["ctx"]]
-    owner = {"e": "Evt", "j": "Jet", "t": "Trk", "h": "Hit", "e.jets().First()": "Jet"}[recv]
+    owner = {"e": "Evt", "j": "Jet", "t": "Trk", "h": "Hit", "e.jets().First()": "Jet", "chain": "chain"}[recv]
     ns = cb_universe(cs["pl"], cs["rw"], log, params, owner)
     sites = [101, 102] if cs["two"] else [101]
 
